@@ -315,6 +315,12 @@ class Body:
             st.extend(self.succs(x))
         return seen
 
+    def reachable_from_succs(self, i):
+        out = set()
+        for j in self.succs(i):
+            out |= self.reachable_from(j)
+        return out
+
     def must_pass(self, start, pred_block, avoid_start=False):
         """True iff every path from block `start` to a normal return passes a
         block satisfying pred_block (start itself counts unless avoid_start)."""
@@ -348,6 +354,7 @@ class Body:
         self.pdefs = {}     # local -> list of partial defs (projection writes)
         self.uses_addr = set()  # locals whose address is taken mutably
         self.deref_writes = {}  # local (a pointer) -> writes through it
+        self.mut_borrows = {}   # local -> blocks holding `&mut local`
         for i in sorted(self.reach):
             b = self.blocks[i]
             for si, s in enumerate(b["stmts"]):
@@ -362,6 +369,7 @@ class Body:
                     rv = s["rv"]
                     if rv["k"] == "ref" and rv["mut"] and not rv["place"]["p"]:
                         self.uses_addr.add(rv["place"]["l"])
+                        self.mut_borrows.setdefault(rv["place"]["l"], []).append(i)
                     if rv["k"] == "rawptr" and not rv["place"]["p"]:
                         self.uses_addr.add(rv["place"]["l"])
                 elif s["k"] == "setdiscr":
@@ -509,6 +517,18 @@ class Body:
         if k == "use":
             return self.expr_op(rv["op"], seen)
         if k == "ref":
+            pl = rv["place"]
+            if rv["mut"] and not pl["p"]:
+                # the unique, non-looping `&mut x` of a singly-defined local sees x's initial value
+                l = pl["l"]
+                mb = self.mut_borrows.get(l, [])
+                ds = self.defs.get(l, [])
+                if len(mb) == 1 and len(ds) == 1 and l not in self.pdefs and l > self.arg_count \
+                        and mb[0] not in self.reachable_from_succs(mb[0]) and (seen is None or l not in seen):
+                    (bb, idx, kind, payload) = ds[0]
+                    s2 = (seen or frozenset()) | {l}
+                    inner = self.expr_rv(payload, s2) if kind == "rv" else self.expr_call(payload, s2)
+                    return mk("ref", inner)
             return mk("ref", self.expr_place(rv["place"], seen))
         if k == "rawptr":
             return mk("ref", self.expr_place(rv["place"], seen))
@@ -634,6 +654,38 @@ class Body:
                 out.append((e, ty, val, d))
         return out
 
+    def atoms(self, site):
+        """Normalised path-condition atoms at block `site`:
+        (expr, truth-or-value, switch_bb).  `!x` is folded into the polarity."""
+        out = []
+        for (e, ty, val, d) in self.path_conditions(site):
+            ne = norm(e)
+            if ty == "bool":
+                tv = truth(val)
+                while isinstance(ne, tuple) and ne[0] == "unop" and ne[1] == "Not":
+                    ne = ne[2]
+                    tv = (not tv) if tv is not None else None
+                out.append((ne, tv, d))
+            else:
+                out.append((ne, val, d))
+        return out
+
+    def def_blocks(self, l):
+        return [d[0] for d in self.defs.get(l, [])] + [d[0] for d in self.pdefs.get(l, [])]
+
+    def no_redef_between(self, l, guard_bb, site_bb, ignore_blocks=()):
+        """No definition of local l on any path guard_bb -> site_bb (site's own
+        terminator destination excluded by construction: it executes after)."""
+        region = self.reachable_from(guard_bb, avoid=[site_bb])
+        for d in self.def_blocks(l):
+            if d in ignore_blocks:
+                continue
+            if d == guard_bb:
+                continue
+            if d in region and site_bb in self.reachable_from(d):
+                return False
+        return True
+
     def pretty(self):
         lines = ["fn %s  [%s:%d]" % (self.path, self.file, self.line)]
         for i in sorted(self.reach):
@@ -732,3 +784,53 @@ def show(e, depth=0):  # noqa: F811  (extend with 'raw')
     if isinstance(e, tuple) and e and e[0] == "raw":
         return e[1]
     return _orig_show(e, depth)
+
+
+# ---------------------------------------------------------------- normalisation
+
+def norm(e):
+    """Deep-strip references, dereferences and reborrows everywhere in e."""
+    if not isinstance(e, tuple) or not e:
+        return e
+    if not isinstance(e, E):
+        # plain tuple such as (name, expr) pairs inside agg
+        return tuple(norm(x) if isinstance(x, tuple) else x for x in e)
+    k = e[0]
+    if k in ("ref", "deref"):
+        return norm(e[1])
+    out = [k]
+    for a in e[1:]:
+        if isinstance(a, E):
+            out.append(norm(a))
+        elif isinstance(a, list):
+            out.append([norm(x) if isinstance(x, tuple) else x for x in a])
+        elif isinstance(a, tuple):
+            out.append(tuple(norm(x) if isinstance(x, tuple) else x for x in a))
+        else:
+            out.append(a)
+    # lists are unhashable: convert to tuples for comparability
+    out = [tuple(x) if isinstance(x, list) else x for x in out]
+    return E(out)
+
+
+def is_call(e, *names):
+    """e is a call whose callee's last segment (or short name) is one of names."""
+    if not isinstance(e, tuple) or not e or e[0] != "call":
+        return False
+    l = last(e[1])
+    s = short(e[1])
+    return l in names or s in names
+
+
+def truth(val):
+    """Truth value of a bool switch edge label."""
+    if val == 0:
+        return False
+    if val == 1:
+        return True
+    if isinstance(val, tuple) and val[0] == "not":
+        if val[1] == (0,):
+            return True
+        if val[1] == (1,):
+            return False
+    return None
